@@ -35,7 +35,7 @@ SCOPES = {
     "C05": ["spatiallyAdaptiveBase.*", "StandardCombi.StandardCombi", "DimAdaptiveCombi.*", "spatiallyAdaptiveExtendSplit.*",
             "spatiallyAdaptiveSingleDimension2.*", "RefinementContainer.*", "RefinementObject.*", "GridOperation.GridOperation",
             "GridOperation.AreaOperation", "GridOperation.Integration"],
-    "C06": ["spatiallyAdaptiveSingleDimension2.*", "RefinementObject.RefinementObjectSingleDimension", "RefinementContainer.RefinementContainer",
+    "C06": ["RefinementObject.RefinementObjectSingleDimension", "RefinementContainer.RefinementContainer",
             "RefinementContainer.MetaRefinementContainer"],
     "C07": ["spatiallyAdaptiveExtendSplit.*", "RefinementObject.RefinementObjectExtendSplit", "RefinementContainer.RefinementContainer"],
     "C09": ["Grid.GlobalGrid", "Grid.GlobalTrapezoidalGrid", "Grid.GlobalTrapezoidalGridWeighted", "Grid.GlobalHighOrderGrid",
@@ -47,11 +47,9 @@ SCOPES = {
     "C11": ["Extrapolation.*", "Grid.GlobalRombergGrid", "Grid.GlobalBalancedRombergGrid"],
     "C12": ["Function.*"],
     "C13": ["spatiallyAdaptiveBase.*", "StandardCombi.StandardCombi", "GridOperation.GridOperation", "GridOperation.AreaOperation",
-            "GridOperation.Integration", "ErrorCalculator.*", "Function.Function", "spatiallyAdaptiveExtendSplit.*",
-            "spatiallyAdaptiveSingleDimension2.*"],
+            "GridOperation.Integration", "ErrorCalculator.*", "Function.Function"],
     "C14": ["spatiallyAdaptiveBase.*", "StandardCombi.StandardCombi", "GridOperation.GridOperation", "GridOperation.AreaOperation",
-            "GridOperation.Integration", "Function.Function", "RefinementContainer.*", "RefinementObject.*",
-            "spatiallyAdaptiveExtendSplit.*", "spatiallyAdaptiveSingleDimension2.*"],
+            "GridOperation.Integration", "Function.Function", "RefinementContainer.*", "RefinementObject.*"],
     "C15": ["GridOperation.UncertaintyQuantification", "GridOperation.UQDistribution", "GridOperation.Integration",
             "Grid.GlobalTrapezoidalGridWeighted", "Grid.GlobalLagrangeGridWeighted", "Grid.GlobalHighOrderGridWeighted"],
     "C16": ["GridOperation.MachineLearning", "GridOperation.DensityEstimation"],
@@ -59,6 +57,32 @@ SCOPES = {
     "C18": ["DEMachineLearning.DataSet"],
     "C19": ["DEMachineLearning.Classification", "DEMachineLearning.DataSet", "GridOperation.MachineLearning", "GridOperation.DensityEstimation"],
     "C20": ["GridOperation.Regression", "GridOperation.MachineLearning", "DEMachineLearning.DataSet", "DEMachineLearning.DataSetRegression"],
+}
+
+# S3 (constructor arguments reach the attributes they configure) is reported only by the properties a class is central to
+S3_SCOPES = {
+    "C01": ["combiScheme.CombiScheme"],
+    "C02": ["StandardCombi.StandardCombi", "Grid.TrapezoidalGrid", "Grid.TrapezoidalGrid1D", "Grid.Grid1d", "GridOperation.Integration",
+            "GridOperation.Interpolation"],
+    "C03": ["spatiallyAdaptiveSingleDimension2.SpatiallyAdaptiveSingleDimensions2", "Grid.GlobalTrapezoidalGrid"],
+    "C05": ["DimAdaptiveCombi.*", "GridOperation.Integration", "GridOperation.AreaOperation"],
+    "C06": ["spatiallyAdaptiveSingleDimension2.SpatiallyAdaptiveSingleDimensions2", "RefinementObject.RefinementObjectSingleDimension",
+            "RefinementContainer.RefinementContainer", "RefinementContainer.MetaRefinementContainer"],
+    "C07": ["spatiallyAdaptiveExtendSplit.SpatiallyAdaptiveExtendScheme", "RefinementObject.RefinementObjectExtendSplit"],
+    "C09": ["Grid.GlobalGrid", "Grid.GlobalTrapezoidalGrid", "Grid.GlobalHighOrderGrid", "Grid.GlobalBasisGrid", "Grid.GlobalLagrangeGrid",
+            "Grid.GlobalBSplineGrid", "Grid.GlobalSimpsonGrid"],
+    "C10": ["Grid.BasisGrid", "Grid.LagrangeGrid", "Grid.LagrangeGrid1D", "Grid.BSplineGrid", "Grid.BSplineGrid1D", "Grid.GlobalBasisGrid",
+            "Grid.GlobalBSplineGrid", "Grid.GlobalLagrangeGrid", "Hierarchization.*", "BasisFunctions.*"],
+    "C11": ["Extrapolation.*", "Grid.GlobalRombergGrid", "Grid.GlobalBalancedRombergGrid"],
+    "C12": ["Function.*"],
+    "C13": ["spatiallyAdaptiveBase.*", "ErrorCalculator.*"],
+    "C14": ["spatiallyAdaptiveBase.*"],
+    "C15": ["GridOperation.UncertaintyQuantification", "GridOperation.UQDistribution", "Grid.GlobalTrapezoidalGridWeighted"],
+    "C16": ["GridOperation.DensityEstimation"],
+    "C17": ["GridOperation.DensityEstimation"],
+    "C18": ["DEMachineLearning.DataSet"],
+    "C19": ["DEMachineLearning.Classification"],
+    "C20": ["GridOperation.Regression"],
 }
 
 MUTATING_METHODS = {"append", "add", "pop", "remove", "update", "extend", "sort", "clear", "insert", "discard", "setdefault", "popitem",
@@ -713,6 +737,142 @@ def check_memo(prog, raw, memo):
     return problems
 
 
+# ------------------------------------------------------------------------------------------------------------- S3
+def ctor_param_table(cdef):
+    """[(position, parameter, attribute)] for `self.<attribute> = <parameter>` (also `p if p is not None else d`) in the class's own
+    __init__: the constructor arguments that configure the instance"""
+    init = next((m for m in methods_of(cdef) if m.name == "__init__"), None)
+    if init is None:
+        return []
+    me = self_name(init)
+    ps = params_of(init)
+    out = []
+    for n in _walk_local(init):
+        if isinstance(n, ast.Assign) and len(n.targets) == 1 and me and _self_attr(n.targets[0], me) is not None:
+            v = n.value
+            cands = [v]
+            if isinstance(v, ast.IfExp):
+                cands = [v.body, v.orelse]
+            for c in cands:
+                if isinstance(c, ast.Name) and c.id in ps and c.id != me:
+                    out.append((ps.index(c.id), c.id, n.targets[0].attr))
+    return sorted(set(out))
+
+
+def _init_of(raw, prog, cq):
+    """(class qual, FunctionDef) of the __init__ an instance of cq runs (own or inherited)"""
+    ci = prog.classes.get(cq)
+    order = [c.qual for c in ci.mro] if ci is not None and ci.mro else [cq]
+    for q in order:
+        cd = raw.classes.get(q)
+        if cd is not None:
+            for m in methods_of(cd):
+                if m.name == "__init__":
+                    return q, m
+    return None, None
+
+
+def _bind_call(call, callee, skip_self):
+    """{callee parameter: argument expression} for a call (positional + keyword); callee: FunctionDef"""
+    ps = params_of(callee)
+    if skip_self and ps:
+        ps = ps[1:]
+    out = {}
+    for k, a in enumerate(call.args):
+        if isinstance(a, ast.Starred):
+            break
+        if k < len(ps):
+            out[ps[k]] = a
+    for kw in call.keywords:
+        if kw.arg is not None:
+            out[kw.arg] = kw.value
+    return out
+
+
+def param_reaches_attribute(raw, prog, cq, fn, pname, attr, depth=3):
+    """does the value of parameter pname of fn (a method of class cq) flow into self.<attr>: stored there (possibly inside an
+    expression), handed to a base-class constructor or a method of self that stores it"""
+    me = self_name(fn)
+    if me is None or depth <= 0:
+        return False
+    for n in _walk_local(fn):
+        if isinstance(n, (ast.Assign, ast.AnnAssign)):
+            tg = n.targets if isinstance(n, ast.Assign) else [n.target]
+            if any(_self_attr(t, me) == attr for t in tg) and n.value is not None:
+                names, _ = _names_closure(fn, [n.value])
+                if pname in names:
+                    return True
+        elif isinstance(n, ast.Call) and isinstance(n.func, ast.Name) and n.func.id == "setattr" and len(n.args) == 3 \
+                and isinstance(n.args[1], ast.Constant) and n.args[1].value == attr:
+            names, _ = _names_closure(fn, [n.args[2]])
+            if pname in names:
+                return True
+    ci = prog.classes.get(cq)
+    mro = [c.qual for c in ci.mro] if ci is not None and ci.mro else [cq]
+    for n in _walk_local(fn):
+        if not (isinstance(n, ast.Call) and isinstance(n.func, ast.Attribute)):
+            continue
+        f_ = n.func
+        callee, ccq, explicit_self = None, None, False
+        if isinstance(f_.value, ast.Call) and isinstance(f_.value.func, ast.Name) and f_.value.func.id == "super":
+            for q in mro[mro.index(cq) + 1:] if cq in mro else []:
+                cd = raw.classes.get(q)
+                m = next((m for m in methods_of(cd) if m.name == f_.attr), None) if cd is not None else None
+                if m is not None:
+                    callee, ccq = m, q
+                    break
+        elif isinstance(f_.value, ast.Name) and f_.value.id == me:
+            for q in mro:
+                cd = raw.classes.get(q)
+                m = next((m for m in methods_of(cd) if m.name == f_.attr), None) if cd is not None else None
+                if m is not None:
+                    callee, ccq = m, q
+                    break
+        elif isinstance(f_.value, ast.Name):
+            for q in mro[1:]:
+                if q.split(".")[-1] == f_.value.id:
+                    cd = raw.classes.get(q)
+                    m = next((m for m in methods_of(cd) if m.name == f_.attr), None) if cd is not None else None
+                    if m is not None:
+                        callee, ccq, explicit_self = m, q, True
+                        break
+        if callee is None:
+            continue
+        call = n
+        if explicit_self and call.args:
+            call = ast.Call(func=n.func, args=n.args[1:], keywords=n.keywords)
+        for q_param, arg in _bind_call(call, callee, skip_self=True).items():
+            names, _ = _names_closure(fn, [arg])
+            if pname in names and param_reaches_attribute(raw, prog, ccq, callee, q_param, attr, depth - 1):
+                return True
+    return False
+
+
+def check_ctor_params(prog, raw, ctx, prop, q, cdef, table):
+    n = 0
+    cq, init = _init_of(raw, prog, q)
+    if init is None:
+        return 0
+    ps = params_of(init)
+    for (pos, pname, attr) in table:
+        if pname not in ps:
+            if cq != q:
+                continue                    # the class no longer has an own constructor: its base's table applies
+            if pos < len(ps):
+                pname = ps[pos]             # renamed positional parameter
+            else:
+                continue                    # the parameter is gone: an interface change, not judged here
+        n += 1
+        ok = param_reaches_attribute(raw, prog, cq, init, pname, attr)
+        ctx.check(ok, "%s.S3" % prop, "%s.__init__::argument-reaches-attribute:%s" % (q, attr),
+                  "sparseSpACE/%s.py:%d" % (q.split(".")[0], init.lineno),
+                  "constructor argument `%s` configures self.%s" % (pname, attr),
+                  "the constructor argument `%s` of %s no longer reaches self.%s (neither stored by the constructor nor handed to a base-class "
+                  "constructor / helper that stores it): the instance silently runs with the default instead of what the caller asked for"
+                  % (pname, q.split(".")[-1], attr))
+    return n
+
+
 # ------------------------------------------------------------------------------------------------------------- driver
 def load_known():
     p = os.path.join(HERE, "known_attrs.json")
@@ -736,10 +896,10 @@ def class_attrs_written(cdef):
     return out
 
 
-def scope_quals(prog, prop):
+def scope_quals(prog, prop, table=None):
     raw = raw_of(prog)
     out = []
-    for pat in SCOPES.get(prop, []):
+    for pat in (table or SCOPES).get(prop, []):
         if pat.endswith(".*"):
             mod = pat[:-2]
             out += [q for q in sorted(raw.classes) if q.split(".")[0] == mod]
@@ -820,7 +980,8 @@ def run(prog, ctx, prop):
     quals = scope_quals(prog, prop)
     if not quals:
         raise AnalysisError("anchor vanished: none of the scope classes of %s exists (%s)" % (prop, ", ".join(SCOPES.get(prop, []))))
-    n_methods = n_memos = n_defaults = 0
+    n_methods = n_memos = n_defaults = n_ctor = 0
+    s3_quals = set(scope_quals(prog, prop, S3_SCOPES))
     for q in quals:
         cdef = raw.classes[q]
         fam = _family(prog, q)
@@ -841,6 +1002,8 @@ def run(prog, ctx, prop):
                 ctx.violation("%s.S1" % prop, "%s.%s::mutable-default:%s" % (q, fn.name, p), "%s:%d" % (rel, getattr(node, "lineno", fn.lineno)),
                               "the default object of parameter `%s` of %s.%s is created once and shared by every call; it %s, so state of one call "
                               "(one run, one instance) leaks into the next" % (p, q.split(".")[-1], fn.name, what))
+        if q in s3_quals:
+            n_ctor += check_ctor_params(prog, raw, ctx, prop, q, cdef, [tuple(x) for x in known.get("ctor", {}).get(q, [])])
         for memo in find_memos(q, cdef, is_new, gd):
             n_memos += 1
             probs = check_memo(prog, raw, memo)
@@ -853,6 +1016,6 @@ def run(prog, ctx, prop):
                       "%s.%s keeps results in %s (a cache the pinned tree does not have) but the cached value can be stale: %s"
                       % (q.split(".")[-1], memo.fn.name, what, "; ".join(probs[:3])))
     ctx.ok("%s.S" % prop, "scope::state-rules", "sparseSpACE/*",
-           "S1/S2 over %d classes, %d methods: %d mutable default objects that are modified or kept, %d memoisations new to the pinned tree analysed"
-           % (len(quals), n_methods, n_defaults, n_memos))
+           "S1-S3 over %d classes, %d methods: %d mutable default objects that are modified or kept, %d memoisations new to the pinned tree "
+           "analysed, %d constructor arguments followed to the attribute they configure" % (len(quals), n_methods, n_defaults, n_memos, n_ctor))
     return n_methods
